@@ -107,6 +107,26 @@ def check_project(proj: Dict[str, Any]) -> Tuple[List[Tuple[str, str]], Dict[str
                 info['cross'] += 1
             if gt != want:
                 out.append(('wrong-object', '%s\nin %s the name %r resolves to %s (%s) but Python binds it to %s' % (desc, ctxname, name, got.fullName(), gt, want)))
+    # the other direction: a definition name of the project that Python does not bind in a module must not resolve there to a
+    # documented object either (it would be "a different object" than the one the name denotes: none).  Definition names are
+    # globally unique and never the name of a root, so the fallback to absolute names cannot apply.
+    defnames = set()
+    for m in proj['mods']:
+        for b in m['body']:
+            if b['k'] in ('class', 'func', 'var', 'alias'):
+                defnames.add(b['name'])
+    for m in proj['mods']:
+        ctx = s.allobjects.get(m['name'])
+        bound = rt.get(m['name'], {})
+        if ctx is None:
+            continue
+        for name in sorted(defnames):
+            if name in bound:
+                continue
+            info['unbound_checked'] = info.get('unbound_checked', 0) + 1
+            got = ctx.resolveName(name)
+            if got is not None and pd_token(got) is not None:
+                out.append(('unbound-name-resolves', '%s\nin %s Python binds no name %r, but it resolves to %s' % (desc, m['name'], name, got.fullName())))
     for mname, musts in (proj.get('must') or {}).items():
         ctx = s.allobjects.get(mname)
         for name in musts:
